@@ -833,7 +833,12 @@ class FnAnalysis(Analysis):
             return Val(kind="cls", classes=frozenset([r.qual]))
         if e.id in self.class_assigns:
             return Val(kind="cls", classes=self.class_assigns[e.id])
-        return self.folded_const(e) or CLEAN
+        fc = self.folded_const(e)
+        if fc is None and e.id not in getattr(self, "_local_names", ()):
+            node = self.prog.module_assigns(self.m).get(e.id)
+            if isinstance(node, (ast.Dict, ast.Tuple, ast.List)) and len(getattr(node, "keys", getattr(node, "elts", []))) <= 64:
+                return self.val(node, St())          # a module-level table (of classes, handlers, constants): its literal
+        return fc or CLEAN
 
     def folded_const(self, e) -> Optional[Val]:
         """Module / class level constant (never a local): its folded value as an abstract value."""
